@@ -19,7 +19,7 @@ import (
 func init() {
 	register(&property{
 		ID:          "C07",
-		Explanation: "Static decision of the TLS matcher's agreement with crypto/tls, with the standard library's own source (the toolchain's $GOROOT/src/crypto/tls, parsed on every run) as oracle: (R1) record gate: the hello is read only behind the test that byte 0 of the 5-byte header is the handshake type 22, whose failing edge answers (false, nil); (R2) the hello is read with io.ReadFull into a buffer whose size is exactly header[3]<<8|header[4]; (R3) framing agreement: for the fixed part and for every extension case present in both parsers, the ordered sequence of cryptobyte reads (method, reader role, fixed sizes) in parseRawClientHello equals the one in clientHelloMsg.unmarshal, and the case labels are the same constant values; (R4) field mapping: each extension that feeds tls.ClientHelloInfo is stored into the ClientHelloInfo field that crypto/tls fills from it (composed from unmarshal and clientHelloInfo()); (R5) the placeholders l4.tls.server_name / l4.tls.version are set from the parsed ServerName / Version, and the handshake sub-matchers are evaluated on the parsed info; (R6) an incomplete hello answers need-more (the C06 propagation rule on both reads) and the matcher does not consult the amount of buffered data.",
+		Explanation: "Static decision of the TLS matcher's agreement with crypto/tls, with the standard library's own source (the toolchain's $GOROOT/src/crypto/tls, parsed on every run) as oracle: (R1) record gate: the hello is read only behind the test that byte 0 of the 5-byte header is the handshake type 22, whose failing edge answers (false, nil); (R2) the hello is read with io.ReadFull into a buffer whose size is exactly header[3]<<8|header[4]; (R3) framing agreement: for the fixed part and for every extension case present in both parsers, the ordered sequence of cryptobyte reads (method, reader role, fixed sizes) in parseRawClientHello equals the one in clientHelloMsg.unmarshal, and the case labels are the same constant values; (R4) field mapping: each extension that feeds tls.ClientHelloInfo is stored into the ClientHelloInfo field that crypto/tls fills from it (composed from unmarshal and clientHelloInfo()); (R5) the placeholders l4.tls.server_name / l4.tls.version are set from the parsed ServerName / Version, and the handshake sub-matchers are evaluated on the parsed info; (R6) an incomplete hello answers need-more (the C06 propagation rule on both reads) and the matcher does not consult the amount of buffered data. Added: (R7) the loop of the fixed part that collects the cipher suites performs the same ordered effects (reads, tests against the same constants, assignments/appends, continue/break/return) as crypto/tls; (R5) also requires that no path to a possibly-true verdict avoids the parse or either placeholder assignment.",
 		NotDecided:  "Value-level agreement on actual hellos (name-type filter, trailing-dot rule, legacy-version fallback, validity predicates such as Empty() tests), i.e. the differential statement itself over all ClientHellos crypto/tls emits.",
 		Run:         runC07,
 	})
